@@ -54,6 +54,56 @@ def install_read_seam():
     _SEAMED[0] = True
 
 
+_READS = {"installed": False, "on": False}
+
+
+class _ReadPointFile:
+    """A binary file whose every read / readinto is followed by a scheduling point: the reader parks with
+    the data it just obtained (in its own bytes object, or in whatever buffer it handed in)."""
+
+    def __init__(self, f, path):
+        self._f = f
+        self._path = path
+
+    def read(self, *a):
+        data = self._f.read(*a)
+        read_point(self._path + "#read")
+        return data
+
+    def readinto(self, b):
+        n = self._f.readinto(b)
+        read_point(self._path + "#readinto")
+        return n
+
+    def __enter__(self):
+        return self
+
+    def __exit__(self, *a):
+        self._f.close()
+
+    def __iter__(self):
+        return iter(self._f)
+
+    def __getattr__(self, name):
+        return getattr(self._f, name)
+
+
+def install_data_read_seam():
+    """Reads of workspace files through the shared file-system object become scheduling points."""
+    if _READS["installed"]:
+        return
+    orig = LFS.open
+
+    def open_(path, mode="r", **kw):
+        f = orig(path, mode=mode, **kw)
+        if _READS["on"] and "r" in mode and "b" in mode:
+            return _ReadPointFile(f, path)
+        return f
+
+    LFS.open = open_
+    _READS["installed"] = True
+
+
 def writer_fn(root, wi, tree, shared_objs, first, upload=False):
     """Returns a callable performing writer wi's stage + transfer."""
 
@@ -119,6 +169,9 @@ def one_schedule(cfg, choices):
     if cfg.get("sql"):
         _sched.install_sql_seam()
     _sched._SQL["on"] = bool(cfg.get("sql"))
+    if cfg.get("reads"):
+        install_data_read_seam()
+    _READS["on"] = bool(cfg.get("reads"))
     with World() as w:
         root = w.root
         for i, t in enumerate(trees):
@@ -131,8 +184,10 @@ def one_schedule(cfg, choices):
             odb = make_odb("local", w.p("odb"), state=state)
             fns = [writer_fn(root, i, t, {"odb": odb}, cfg.get("first"), cfg.get("upload", False))
                    for i, t in enumerate(trees)]
-            fine = [w.p(f"ws{i}") for i in range(len(trees))] if cfg.get("fine") else []
-            sched = ThreadSched(fns, choices, shared, fine=fine)
+            fine = [w.p(f"ws{i}") for i in range(len(trees))] if cfg.get("fine") or cfg.get("reads") else []
+            # reads pass: only the workspaces' events and data reads are points (the phases that touch the
+            # shared directories are covered by the other passes)
+            sched = ThreadSched(fns, choices, [] if cfg.get("reads") else shared, fine=fine)
             try:
                 trace, results = sched.run()
             except HarnessError as e:
@@ -378,6 +433,14 @@ def configs(tier):
             (2 if tier == "thorough" else 1)
 
 
+def _reads_cfgs(tier):
+    # data-read pass: a writer can be preempted right after each read of a workspace file (hashing is the
+    # only consumer), so that buffers shared between hashing calls would show
+    for name in ("swapped", "overlap"):
+        yield {"workload": name, "mode": "threads", "first": None, "caps": False, "reads": True}, \
+            (3 if tier == "thorough" else 2)
+
+
 def run(ctx):
     ctx.rule = (
         "E5: workloads {identical trees, overlapping files, one content under two paths} with 2 writers "
@@ -393,9 +456,11 @@ def run(ctx):
         "fine-grained pass, where they are, so that the memory-only staging phases interleave too",
         "in-memory shared state (ObjectDB._dirs, staging url cache, memfs) is only interleaved at these points",
         "SQL pass: a writer is never parked inside a database transaction (statements after BEGIN are not points)",
+        "data-read pass: every read()/readinto() of a workspace file through the file-system object is followed "
+        "by a scheduling point (and only workspace events are points in that pass)",
     ]
     ctx.require("schedules", "preempted_schedules", "adjacent_conflicts")
-    cfgs = list(configs(ctx.tier))
+    cfgs = list(configs(ctx.tier)) + list(_reads_cfgs(ctx.tier))
     ctx.bound = {"configs": len(cfgs),
                  "preemption_bound": {json.dumps(c, sort_keys=True): b for c, b in cfgs}}
     probes = {}
